@@ -5,30 +5,37 @@ set_option linter.unusedSimpArgs false
 namespace IcyVerif.IcyDraw
 open IcyVerif.Gen.Icy
 
+/-- `from_byte(to_byte(v)) = v` for every variant of the four mode enums — the quantifier is the finite variant table
+    regenerated from src/buffers.rs, so this is checked by evaluation.  The buffer type passes through `as u16` and
+    `as u8` on its way. -/
+theorem bufferType_table_rt : ∀ v, v < bufferTypeVariants.length → bufferTypeOfByte (bufferTypeByte v % 65536 % 256) = v := by decide
+theorem iceMode_table_rt : ∀ v, v < iceModeVariants.length → iceModeOfByte (iceModeByte v % 256) = v := by decide
+theorem paletteMode_table_rt : ∀ v, v < paletteModeVariants.length → paletteModeOfByte (paletteModeByte v % 256) = v := by decide
+theorem fontMode_table_rt : ∀ v, v < fontModeVariants.length → fontModeOfByte (fontModeByte v % 256) = v := by decide
+
 theorem decodeHeader_encode (h : Header) (hw : h.wf = true) : decodeHeader (encodeHeader h) = .ok h := by
   obtain ⟨bt, ice, pal, font, w, ht⟩ := h
   simp only [Header.wf, Bool.and_eq_true, decide_eq_true_eq] at hw
   obtain ⟨⟨⟨⟨⟨h1, h2⟩, h3⟩, h4⟩, h5⟩, h6⟩ := hw
   unfold decodeHeader encodeHeader
-  have hl : ([icdVersion % 256, icdVersion / 256 % 256] ++ leBytes 4 0 ++ leBytes 2 bt ++ [ice % 256, pal % 256, font % 256] ++
+  have hl : ([icdVersion % 256, icdVersion / 256 % 256] ++ leBytes 4 0 ++ leBytes 2 (bufferTypeByte bt) ++
+      [iceModeByte ice % 256, paletteModeByte pal % 256, fontModeByte font % 256] ++
       leBytes 4 w ++ leBytes 4 ht).length = icedHeaderSize := by
     simp [leBytes_length, icedHeaderSize]
   rw [if_neg (by rw [hl]; simp)]
-  have : ([icdVersion % 256, icdVersion / 256 % 256] ++ leBytes 4 0 ++ leBytes 2 bt ++ [ice % 256, pal % 256, font % 256] ++
-      leBytes 4 w ++ leBytes 4 ht).drop 6 = leBytes 2 bt ++ (ice % 256 :: pal % 256 :: font % 256 :: (leBytes 4 w ++ (leBytes 4 ht ++ []))) := by
+  have : ([icdVersion % 256, icdVersion / 256 % 256] ++ leBytes 4 0 ++ leBytes 2 (bufferTypeByte bt) ++
+      [iceModeByte ice % 256, paletteModeByte pal % 256, fontModeByte font % 256] ++
+      leBytes 4 w ++ leBytes 4 ht).drop 6 = leBytes 2 (bufferTypeByte bt) ++
+        (iceModeByte ice % 256 :: paletteModeByte pal % 256 :: fontModeByte font % 256 :: (leBytes 4 w ++ (leBytes 4 ht ++ []))) := by
     simp [leBytes]
   rw [this]
   simp only [rdLE_leBytes, rdU8]
   have hp4 : (256 : Nat) ^ 4 = 4294967296 := by decide
   have hp2 : (256 : Nat) ^ 2 = 65536 := by decide
   rw [hp4, hp2, if_neg (by omega)]
-  have e1 : modeFromByte 4 (bt % 65536 % 256) = bt := by unfold modeFromByte; split <;> omega
-  have e2 : iceFromByte (ice % 256) = ice := by unfold iceFromByte; split <;> omega
-  have e3 : modeFromByte 3 (pal % 256) = pal := by unfold modeFromByte; split <;> omega
-  have e4 : modeFromByte 3 (font % 256) = font := by unfold modeFromByte; split <;> omega
   have e5 : w % 4294967296 = w := by omega
   have e6 : ht % 4294967296 = ht := by omega
-  rw [e1, e2, e3, e4, e5, e6]
+  rw [bufferType_table_rt bt h1, iceMode_table_rt ice h2, paletteMode_table_rt pal h3, fontMode_table_rt font h4, e5, e6]
 
 
 /-! ## whole documents -/
